@@ -3,7 +3,8 @@
    ascii and string stay the Coq inductives. No Extract Constant. *)
 From Coq Require Import Extraction ExtrOcamlBasic.
 From TS Require Import Model.Str Model.Outcome Model.Unicode Model.Rename Spec.SerdeCase Spec.C16Spec
-  Model.Types Model.TopsortAlgo Model.Topsort Spec.C11Spec Model.Integer Spec.JsSafe Model.Syntax Model.Attrs Model.TargetOs Spec.TargetOsRule.
+  Model.Types Model.TopsortAlgo Model.Topsort Spec.C11Spec Model.Integer Spec.JsSafe Model.Syntax Model.Attrs Model.TargetOs Spec.TargetOsRule
+  Model.Config Spec.C20Spec.
 Extraction Language OCaml.
 Set Extraction AccessOpaque.
 Extraction "model.ml"
@@ -22,4 +23,9 @@ Extraction "model.ml"
   TopsortAlgo.toposort_impl TopsortAlgo.sort_by_indices Topsort.topsort Topsort.build_dag
   C11Spec.good_C11 C11Spec.known_C11 C11Spec.acyclic C11Spec.perm_ok C11Spec.topo_ok
   Types.parse_ty Types.rtype_display Types.item_id
-  TargetOs.accept_target_os TargetOsRule.os_rule TargetOsRule.cfg_parsable.
+  TargetOs.accept_target_os TargetOsRule.os_rule TargetOsRule.cfg_parsable
+  Config.default_config Config.config_of_file Config.present_config Config.override_configuration Config.language_params
+  Config.find_loop Config.find_configuration_file Config.load_config Config.store_config
+  Config.generate_types Config.generate_config Config.cli_main
+  C20Spec.effective C20Spec.expected_config C20Spec.expected_backend C20Spec.nearest_config
+  C20Spec.expected_generate C20Spec.expected_generate_config C20Spec.persisted.
